@@ -1,18 +1,25 @@
 (* C01 — AEAD decrypts what it encrypts, in the documented standard wire format.
-   Only statements + `exact`; proofs live in proofs/*Proofs.v.  The standard
-   primitives are universally quantified functions constrained by the laws
-   named in the premises (answered by the Go standard library at run time). *)
-From Coq Require Import List NArith Bool.
-From Tink Require Import Bytes AeadFrame AeadFrameProofs.
+   Only statements + short assemblies; proofs live in proofs/*Proofs.v.
+   The standard primitives (AES block, HMAC, cipher.AEAD Seal/Open of AES-GCM,
+   ChaCha20-Poly1305, XChaCha20-Poly1305) are universally quantified functions
+   constrained by the laws named in the premises; at run time they are answered
+   by the Go standard library.  enc functions take the IV that crypto/rand
+   supplies as an argument; they return Err where the Go code returns an error
+   (over-long plaintext) — so "enc = Ok c -> dec c = Ok p" is the round trip. *)
+From Coq Require Import List NArith Bool Lia ZifyN ZifyNat.
+From Tink Require Import Bytes AeadFrame AeadFrameProofs Ctr CtrProofs EtM EtMProofs
+  Polyval GcmSiv GcmSivProofs Cmac Xaes XaesProofs Envelope EnvelopeProofs.
 Import ListNotations.
 Open Scope N_scope.
 
-(* AES-GCM key type (aead/aesgcm, aead/subtle.AESGCM): for every key, key id,
-   prefix variant, 12-byte IV, plaintext and associated data, whenever Encrypt
-   returns a ciphertext, Decrypt of it returns exactly the plaintext. *)
+Definition aead_seal := bytes -> bytes -> bytes -> bytes -> bytes.          (* key nonce ad plaintext *)
+Definition aead_open := bytes -> bytes -> bytes -> bytes -> option bytes.   (* key nonce ad ciphertext *)
+
+(* ------------------------------------------------------------------------- *)
+(* AES-GCM (aead/aesgcm, aead/subtle.AESGCM): every key, key id, variant,
+   12-byte IV, plaintext, AD.                                                *)
 Theorem C01_aesgcm_round_trip :
-  forall (seal : bytes -> bytes -> bytes -> bytes -> bytes)
-         (open_ : bytes -> bytes -> bytes -> bytes -> option bytes),
+  forall (seal : aead_seal) (open_ : aead_open),
     seal_len_law seal 16 -> open_seal_law seal open_ gcm_seal_max ->
     forall v id key iv p ad c,
       length iv = 12%nat ->
@@ -25,3 +32,254 @@ Proof.
     [intros m; discriminate | exact Hiv | exact He].
 Qed.
 Print Assumptions C01_aesgcm_round_trip.
+
+(* wire format: prefix || iv || Seal_GCM(key, iv, ad, p), for every plaintext
+   the standard library's GCM accepts (<= 2^36-32 bytes) *)
+Theorem C01_aesgcm_wire_format :
+  forall (seal : aead_seal) v id key iv p ad,
+    lenN p <= 2 ^ 36 - 32 ->
+    aesgcm_enc seal (output_prefix v id) key iv p ad =
+    Ok (output_prefix v id ++ iv ++ seal key iv ad p).
+Proof.
+  intros. unfold aesgcm_enc. apply (na_enc_total seal (fun _ _ _ _ => None)); [|exact H].
+  unfold gcm_tink_max, MaxInt, lenN in *. vm_compute N.min. lia.
+Qed.
+Print Assumptions C01_aesgcm_wire_format.
+
+(* ChaCha20-Poly1305 (aead/chacha20poly1305 and aead/subtle) *)
+Theorem C01_chacha20poly1305_round_trip :
+  forall (seal : aead_seal) (open_ : aead_open),
+    seal_len_law seal 16 -> open_seal_law seal open_ chacha_seal_max ->
+    forall v id key iv p ad c,
+      length iv = 12%nat ->
+      (chacha_enc seal (output_prefix v id) key iv p ad = Ok c ->
+       chacha_dec open_ (output_prefix v id) key c ad = Ok p) /\
+      (chacha_subtle_enc seal key iv p ad = Ok c ->
+       chacha_subtle_dec open_ key c ad = Ok p).
+Proof.
+  intros seal open_ HL HO v id key iv p ad c Hiv. split; intros He.
+  - unfold chacha_dec. rewrite dec_prefixfirst_canon.
+    apply (na_round_trip seal open_ 12 16 chacha_seal_max (Some chacha_open_max) _ _ key iv p ad c HL HO);
+      [intros m E; inversion E; reflexivity | exact Hiv | exact He].
+  - unfold chacha_subtle_dec. rewrite dec_lenfirst_canon.
+    apply (na_round_trip seal open_ 12 16 chacha_seal_max (Some chacha_open_max) _ _ key iv p ad c HL HO);
+      [intros m E; inversion E; reflexivity | exact Hiv | exact He].
+Qed.
+Print Assumptions C01_chacha20poly1305_round_trip.
+
+(* XChaCha20-Poly1305 (aead/xchacha20poly1305 and aead/subtle), 24-byte nonce *)
+Theorem C01_xchacha20poly1305_round_trip :
+  forall (seal : aead_seal) (open_ : aead_open),
+    seal_len_law seal 16 -> open_seal_law seal open_ chacha_seal_max ->
+    forall v id key iv p ad c,
+      length iv = 24%nat -> lenN c <= MaxInt ->
+      (xchacha_enc seal (output_prefix v id) key iv p ad = Ok c ->
+       xchacha_dec open_ (output_prefix v id) key c ad = Ok p) /\
+      (xchacha_enc seal [] key iv p ad = Ok c ->
+       xchacha_subtle_dec open_ key c ad = Ok p).
+Proof.
+  intros seal open_ HL HO v id key iv p ad c Hiv Hc. split; intros He.
+  - unfold xchacha_dec. rewrite dec_lenprefix_canon by exact Hc.
+    apply (na_round_trip seal open_ 24 16 chacha_seal_max (Some chacha_open_max) _ _ key iv p ad c HL HO);
+      [intros m E; inversion E; reflexivity | exact Hiv | exact He].
+  - unfold xchacha_subtle_dec. rewrite dec_lenfirst_canon.
+    apply (na_round_trip seal open_ 24 16 chacha_seal_max (Some chacha_open_max) _ _ key iv p ad c HL HO);
+      [intros m E; inversion E; reflexivity | exact Hiv | exact He].
+Qed.
+Print Assumptions C01_xchacha20poly1305_round_trip.
+
+(* ------------------------------------------------------------------------- *)
+(* AES-CTR-HMAC (aead/aesctrhmac; aead/subtle.EncryptThenAuthenticate): every
+   AES key, HMAC key, IV size, tag size <= digest size, variant, id, IV, p, ad.
+   Only the output lengths of AES and HMAC are assumed.                      *)
+Theorem C01_aesctrhmac_round_trip :
+  forall (aes hmac : bytes -> bytes -> bytes) (hlen : nat),
+    (forall k b, length (aes k b) = 16%nat) -> (forall k m, length (hmac k m) = hlen) ->
+    forall v id k iv p ad c,
+      (ek_tag k <= hlen)%nat -> length iv = ek_iv k ->
+      (etm_enc aes hmac (output_prefix v id) k iv p ad = Ok c ->
+       etm_dec aes hmac (output_prefix v id) k c ad = Ok p) /\
+      (etm_enc aes hmac [] k iv p ad = Ok c -> etm_subtle_dec aes hmac k c ad = Ok p).
+Proof.
+  intros aes hmac hlen HA HH v id k iv p ad c Ht Hiv. split; intros He.
+  - rewrite (etm_dec_is_canon aes hmac hlen HH) by exact Ht.
+    exact (etm_round_trip aes hmac hlen HA HH _ k iv p ad c Ht Hiv He).
+  - rewrite (etm_subtle_dec_eq aes hmac hlen HH) by exact Ht.
+    rewrite (etm_dec_is_canon aes hmac hlen HH) by exact Ht.
+    exact (etm_round_trip aes hmac hlen HA HH _ k iv p ad c Ht Hiv He).
+Qed.
+Print Assumptions C01_aesctrhmac_round_trip.
+
+(* wire format: prefix || iv || AES-CTR(iv||0.., p) || HMAC(ad || iv||ct || be64(8|ad|))[:tag] *)
+Theorem C01_aesctrhmac_wire_format :
+  forall (aes hmac : bytes -> bytes -> bytes) (hlen : nat),
+    (forall k m, length (hmac k m) = hlen) ->
+    forall v id k iv p ad,
+      (ek_tag k <= hlen)%nat -> lenN p <= MaxInt - N.of_nat (ek_iv k) ->
+      let ct := aes_ctr (aes (ek_aes k)) iv p in
+      etm_enc aes hmac (output_prefix v id) k iv p ad =
+      Ok (output_prefix v id ++ (iv ++ ct)
+          ++ firstn (ek_tag k) (hmac (ek_hmac k) (ad ++ (iv ++ ct) ++ be_bytes 8 (lenN ad * 8)))).
+Proof. intros aes hmac hlen HH v id k iv p ad Ht Hp. exact (etm_enc_ok aes hmac hlen HH _ k iv p ad Ht Hp). Qed.
+Print Assumptions C01_aesctrhmac_wire_format.
+
+(* the MAC input determines (ad, iv||ct): no two (ad, ciphertext) pairs collide *)
+Theorem C01_etm_mac_input_injective :
+  forall ad1 x1 ad2 x2, lenN ad1 < 2 ^ 61 -> lenN ad2 < 2 ^ 61 ->
+    mac_input ad1 x1 = mac_input ad2 x2 -> ad1 = ad2 /\ x1 = x2.
+Proof. exact mac_input_injective. Qed.
+Print Assumptions C01_etm_mac_input_injective.
+
+(* counter mode: the loop of the Go code (encrypt counter, bump, XOR min(len,16)
+   bytes, advance) computes data XOR keystream, preserves length and is an
+   involution — for any block function with 16-byte output, any counter
+   layout and increment (big-endian 128-bit for crypto/cipher CTR,
+   little-endian 32-bit with wrap for RFC 8452) *)
+Theorem C01_ctr_involutive :
+  forall (E : bytes -> bytes) (blk : N -> bytes) (next : N -> N),
+    (forall b, length (E b) = 16%nat) ->
+    forall c data,
+      ctr_apply E blk next c data = ks_xor E blk next c data /\
+      length (ctr_apply E blk next c data) = length data /\
+      ctr_apply E blk next c (ctr_apply E blk next c data) = data.
+Proof.
+  intros E blk next HE c data. repeat split.
+  - apply ctr_apply_spec; exact HE.
+  - apply ctr_apply_length; exact HE.
+  - apply ctr_apply_involutive; exact HE.
+Qed.
+Print Assumptions C01_ctr_involutive.
+
+(* ------------------------------------------------------------------------- *)
+(* AES-GCM-SIV (internal/aead/aesgcmsiv.go + aead/aesgcmsiv): deriveKeys,
+   POLYVAL kernels, tag, little-endian 32-bit counter mode — only |AES| = 16
+   is assumed.                                                               *)
+Theorem C01_aesgcmsiv_round_trip :
+  forall (aes : bytes -> bytes -> bytes), (forall k b, length (aes k b) = 16%nat) ->
+    forall v id key nonce p ad c,
+      length nonce = 12%nat ->
+      siv_enc aes (output_prefix v id) key nonce p ad = Ok c ->
+      siv_dec aes (output_prefix v id) key c ad = Ok p.
+Proof. intros aes HA v id key nonce p ad c. apply siv_round_trip. exact HA. Qed.
+Print Assumptions C01_aesgcmsiv_round_trip.
+
+(* Encrypt succeeds for every plaintext up to MaxInt32-28 bytes and AD up to MaxInt32 bytes,
+   and the ciphertext is prefix || nonce || CTR32LE(encKey, tag|0x80.., p) || tag *)
+Theorem C01_aesgcmsiv_wire_format :
+  forall (aes : bytes -> bytes -> bytes), (forall k b, length (aes k b) = 16%nat) ->
+    forall v id key nonce p ad,
+      length nonce = 12%nat -> lenN p <= MaxInt32 - 12 - 16 -> lenN ad <= MaxInt32 ->
+      let tag := tagf aes key nonce p ad in
+      siv_enc aes (output_prefix v id) key nonce p ad =
+      Ok (output_prefix v id ++ nonce ++ sctr aes (dk_enc aes key nonce) tag p ++ tag).
+Proof.
+  intros aes HA v id key nonce p ad Hn Hp Ha. unfold siv_enc.
+  rewrite (siv_raw_enc_ok aes HA) by assumption. reflexivity.
+Qed.
+Print Assumptions C01_aesgcmsiv_wire_format.
+
+(* ------------------------------------------------------------------------- *)
+(* XAES-256-GCM (aead/xaesgcm): per-message key = CMAC(00 01 58 00 || salt || 0..) ||
+   CMAC(00 02 58 00 || salt || 0..), then AES-GCM.                            *)
+Theorem C01_xaesgcm_round_trip :
+  forall (aes : bytes -> bytes -> bytes) (seal : aead_seal) (open_ : aead_open),
+    (forall k b, length (aes k b) = 16%nat) ->
+    seal_len_law seal 16 -> open_seal_law seal open_ gcm_seal_max ->
+    forall saltsize v id key saltiv p ad c,
+      length saltiv = (saltsize + 12)%nat ->
+      xaes_enc aes seal saltsize (output_prefix v id) key saltiv p ad = Ok c ->
+      xaes_dec aes open_ saltsize (output_prefix v id) key c ad = Ok p.
+Proof.
+  intros aes seal open_ HA HL HO ss v id key saltiv p ad c Hl He.
+  rewrite (xaes_dec_is_canon aes seal open_ HA).
+  exact (xaes_round_trip aes seal open_ HA HL HO ss _ key saltiv p ad c Hl He).
+Qed.
+Print Assumptions C01_xaesgcm_round_trip.
+
+Theorem C01_xaesgcm_wire_format :
+  forall (aes : bytes -> bytes -> bytes) (seal : aead_seal),
+    (forall k b, length (aes k b) = 16%nat) ->
+    forall saltsize v id key salt iv p ad,
+      length salt = saltsize -> (saltsize <= 12)%nat -> lenN p <= 2 ^ 36 - 32 ->
+      let k1 := cmac_impl (aes key) ([0; 1; 88; 0] ++ padded_salt salt) in
+      let k2 := cmac_impl (aes key) ([0; 2; 88; 0] ++ padded_salt salt) in
+      xaes_enc aes seal saltsize (output_prefix v id) key (salt ++ iv) p ad =
+      Ok (output_prefix v id ++ salt ++ iv ++ seal (k1 ++ k2) iv ad p).
+Proof.
+  intros aes seal HA ss v id key salt iv p ad Hs Hss Hp.
+  rewrite (xaes_enc_eq aes seal (fun _ _ _ _ => None) HA) by exact Hs.
+  rewrite (na_enc_total seal (fun _ _ _ _ => None)); [rewrite <- !app_assoc; reflexivity| |exact Hp].
+  pose proof (output_prefix_length v id) as Hl.
+  unfold xaes_tink_max, MaxInt, lenN in *. destruct v; lia.
+Qed.
+Print Assumptions C01_xaesgcm_wire_format.
+
+(* ------------------------------------------------------------------------- *)
+(* KMS envelope (aead/kms_envelope_aead.go): be32(|encDEK|) || encDEK || payload *)
+Theorem C01_envelope_parse_build :
+  forall encDEK payload c, build_envelope encDEK payload = Ok c ->
+    parse_envelope c = Ok (encDEK, payload).
+Proof. exact parse_build. Qed.
+Print Assumptions C01_envelope_parse_build.
+
+(* the envelope AEAD round-trips whenever the key-encryption AEAD and the
+   data-key AEAD do (both are instances of the theorems above) *)
+Theorem C01_envelope_round_trip :
+  forall kek_enc kek_dec dek_enc dek_dec kivlen divlen,
+    kek_rt kek_enc kek_dec kivlen -> dek_rt dek_enc dek_dec divlen ->
+    forall dek kekiv dekiv p ad c,
+      length kekiv = kivlen -> length dekiv = divlen ->
+      env_enc kek_enc dek_enc dek kekiv dekiv p ad = Ok c ->
+      env_dec kek_dec dek_dec c ad = Ok p.
+Proof.
+  intros ke kd de dd kl dl HK HD dek kekiv dekiv p ad c H1 H2 H.
+  exact (env_round_trip ke kd de dd kl dl dek kekiv dekiv p ad c HK HD H1 H2 H).
+Qed.
+Print Assumptions C01_envelope_round_trip.
+
+(* ------------------------------------------------------------------------- *)
+(* framing: prefix, IV and body are recovered from prefix || iv || body; the
+   output prefix is 5 bytes (start byte 1 = TINK, 0 = CRUNCHY/LEGACY, then the
+   big-endian key id) or empty (RAW), and determines start byte and key id   *)
+Theorem C01_frame_unframe :
+  forall (prefix iv body : bytes),
+    firstn (length prefix) (prefix ++ iv ++ body) = prefix /\
+    firstn (length iv) (skipn (length prefix) (prefix ++ iv ++ body)) = iv /\
+    skipn (length prefix + length iv) (prefix ++ iv ++ body) = body.
+Proof.
+  intros. rewrite firstn_app_exact, skipn_app_exact, firstn_app_exact. repeat split.
+  rewrite app_assoc. apply skipn_app_len. rewrite app_length. reflexivity.
+Qed.
+Print Assumptions C01_frame_unframe.
+
+Theorem C01_output_prefix :
+  forall v id,
+    output_prefix v id = match v with
+                         | VTink => 1 :: be_bytes 4 id
+                         | VCrunchy | VLegacy => 0 :: be_bytes 4 id
+                         | VRaw => [] end /\
+    length (output_prefix v id) = match v with VRaw => 0%nat | _ => 5%nat end /\
+    (forall v2 id2, id < 2 ^ 32 -> id2 < 2 ^ 32 -> v <> VRaw ->
+       output_prefix v id = output_prefix v2 id2 -> id = id2 /\ (v = VTink <-> v2 = VTink)).
+Proof.
+  intros v id. split; [destruct v; reflexivity|]. split; [apply output_prefix_length|].
+  intros v2 id2 H1 H2 Hr H. exact (output_prefix_inj v v2 id id2 H1 H2 Hr H).
+Qed.
+Print Assumptions C01_output_prefix.
+
+(* ------------------------------------------------------------------------- *)
+(* Non-vacuity: the premises are satisfiable (a toy AEAD p |-> p || 0^16, a
+   constant block function and MAC), and a concrete round trip computes.     *)
+Example C01_nonvacuous :
+  (seal_len_law toy_seal 16 /\ open_seal_law toy_seal (toy_open gcm_seal_max) gcm_seal_max) /\
+  (forall k b : bytes, length ((fun _ _ => zeros 16) k b) = 16%nat) /\
+  aesgcm_dec (toy_open gcm_seal_max) (output_prefix VTink 258) [7]
+    (match aesgcm_enc toy_seal (output_prefix VTink 258) [7] (zeros 12) [1; 2; 3] [9] with Ok c => c | _ => [] end) [9]
+  = Ok [1; 2; 3] /\
+  siv_dec (fun _ _ => zeros 16) (output_prefix VCrunchy 1) (zeros 16)
+    (match siv_enc (fun _ _ => zeros 16) (output_prefix VCrunchy 1) (zeros 16) (zeros 12) [1; 2; 3] [] with Ok c => c | _ => [] end) []
+  = Ok [1; 2; 3].
+Proof.
+  split; [destruct (toy_laws gcm_seal_max) as [A [B _]]; split; assumption|].
+  split; [intros; apply zeros_length|]. split; vm_compute; reflexivity.
+Qed.
